@@ -490,6 +490,13 @@ func (c *ctxConn) Read(b []byte) (n int, err error) {
 		n, err = c.conn.Read(b)
 		if err != nil {
 			if netErr, ok := err.(net.Error); ok && netErr.Timeout() && netErr.Temporary() {
+				if n > 0 {
+					// The bytes read before the timeout should not be discarded (a TLS 1.2
+					// connection returns the last application data together with the timeout of
+					// its attempt to read the alert that follows them): the caller gets them
+					// now and the next read waits for the rest.
+					return n, nil
+				}
 				continue
 			}
 			// A reader may return the bytes that it has read along with the error: a TLS 1.2
